@@ -367,6 +367,10 @@ def cases(rng, tier):
         if any(deg(red(f, q)) < 0 for q in qs): continue
         out.append(Case('cli_factor_mod_p_multi', line('cli_factor_mod_p_multi', f, qs), model=_lib.IMPL_ONLY, oracle=o_multi(f, qs),
                         always_oracle=True, tag='cli-multi'))
+    for f, qs in multi[:4]:
+        if any(deg(red(f, q)) < 0 for q in qs): continue
+        out.append(Case('cli_seq', line('cli_seq', Id('pp'), f, qs, [Id('fmp'), Id('fmp')]), model=_lib.IMPL_ONLY, oracle=_lib.o_cli_seq(2),
+                        always_oracle=True, tag='cli-several-commands'))
     for f, q in cli:
         if deg(red(f, q)) < 0: continue
         pus = q if fits_usize(q) else 0
